@@ -1,7 +1,184 @@
-//! C10 end-to-end part (recorded whole dumps) — needs the puppet.
+//! C10 end-to-end part: every prefix of the destination op log of real dumps (crash points), and
+//! an I/O error injected at every destination call, under each option tuple.
+
+use crate::checks::c01::{env_of, opts_for, DIMS};
+use crate::dest::{replay_prefix, DestOp, Fault};
+use crate::dump::{dump_recorded, DumpOpts, DumpResult};
+use crate::shapes::{build, par_map, Shape};
 use crate::Ctx;
-use mdv_core::{Report, Value};
-pub fn run(_ctx: &Ctx, _rep: &mut Report) {}
-pub fn replay(_case: &Value, rep: &mut Report) {
-    rep.machinery("end-to-end C10 replay not available yet".into());
+use mdv_core::mdparse::{Dump, Kind};
+use mdv_core::{json, Report, Value};
+
+/// The truncated-minidump invariant on one prefix image. `img`/`written` start at the dump's start offset.
+pub fn prefix_invariant(img: &[u8], written: &[bool]) -> Option<(String, String)> {
+    let is_written = |a: u64, b: u64| -> bool { (b as usize) <= written.len() && written[a as usize..b as usize].iter().all(|w| *w) };
+    if img.len() < 32 || !is_written(0, 32) {
+        return Some(("header-missing".into(), "the header is not completely present".into()));
+    }
+    let d = Dump::parse(img);
+    if d.signature != mdv_core::mdparse::SIGNATURE {
+        return Some(("header-garbage".into(), "the header has no valid signature".into()));
+    }
+    let dir_end = d.dir_rva as u64 + 12 * d.stream_count as u64;
+    if d.dir.len() != d.stream_count as usize || !is_written(d.dir_rva as u64, dir_end) {
+        return Some(("directory-missing".into(), format!("the directory [{:#x}, {:#x}) is not completely present", d.dir_rva, dir_end)));
+    }
+    for (slot, e) in d.dir.iter().enumerate() {
+        if e.ty == 0 {
+            if e.size != 0 || e.rva != 0 {
+                return Some(("torn-entry".into(), format!("slot {slot}: type 0 with location ({:#x}, {})", e.rva, e.size)));
+            }
+            continue;
+        }
+        let s = e.rva as u64;
+        let t = s + e.size as u64;
+        if !is_written(s, t) {
+            return Some(("entry-before-data".into(), format!("slot {slot} ({}) names bytes [{s:#x}, {t:#x}) that have not all reached the destination", mdv_core::mdparse::stream_name(e.ty))));
+        }
+        for o in d.objects.iter().filter(|o| o.owner == slot && o.kind != Kind::Stream) {
+            if !is_written(o.start, o.end) {
+                return Some(("referenced-blob-missing".into(), format!("slot {slot} ({}): {} [{:#x}, {:#x}) is not completely present", mdv_core::mdparse::stream_name(e.ty), o.what, o.start, o.end)));
+            }
+        }
+    }
+    // anything the strict parser complains about in a used entry (out-of-bounds references etc.)
+    if let Some(e) = d.errors.iter().find(|e| e.contains("out of bounds")) {
+        return Some(("reference-out-of-bounds".into(), e.clone()));
+    }
+    None
+}
+
+pub struct Res {
+    case: Value,
+    fails: Vec<(String, String)>,
+    crash_points: u64,
+    windows: u64,
+    fault_runs: u64,
+    ok: bool,
+}
+
+fn check_log(pre: &[u8], start: u64, log: &[DestOp], fails: &mut Vec<(String, String)>, what: &str) -> u64 {
+    let mut points = 0;
+    for n in 1..=log.len() {
+        if !matches!(log[n - 1], DestOp::Write { .. } | DestOp::Seek { .. }) {
+            continue;
+        }
+        if !log[..n].iter().any(|o| matches!(o, DestOp::Write { .. })) {
+            continue;
+        }
+        points += 1;
+        let (data, written) = replay_prefix(pre, log, n);
+        let s = start as usize;
+        if data.len() <= s {
+            continue;
+        }
+        if let Some((k, m)) = prefix_invariant(&data[s..], &written[s..]) {
+            if !fails.iter().any(|f| f.0 == k) {
+                fails.push((k, format!("{what}: after {n} of {} destination calls: {m}", log.len())));
+            }
+        }
+    }
+    points
+}
+
+fn run_tuple(shape: &Shape, t: &[usize], with_faults: bool) -> Res {
+    let mut b = build(shape);
+    let env = env_of(&mut b);
+    let o: DumpOpts = opts_for(t, &b, &env);
+    let case = json!({"shape": shape.to_json(), "options": t, "with_faults": with_faults});
+    let mut fails = Vec::new();
+    let start = 7u64;
+    let pre: Vec<u8> = vec![0xEE; 7];
+    let (r, d) = dump_recorded(b.p.pid, &o, start, pre.clone(), Fault::None);
+    let ok = matches!(r, DumpResult::Ok(_));
+    let mut crash_points = check_log(&pre, start, &d.log, &mut fails, "crash point");
+    // count the windows between a directory-entry write and the end (vacuity counter): entry writes are 12-byte writes into the directory
+    let windows = d.log.iter().filter(|o| matches!(o, DestOp::Write { data, .. } if data.len() == 12)).count() as u64;
+    let mut fault_runs = 0;
+    if with_faults {
+        for k in 0..d.calls {
+            b.p.quiesce();
+            let (r2, d2) = dump_recorded(b.p.pid, &o, start, pre.clone(), Fault::ErrAt(k));
+            fault_runs += 1;
+            if let DumpResult::Panic(p) = &r2 {
+                fails.push(("panic-on-destination-error".into(), format!("destination error at call {k}: dump panicked: {p}")));
+            }
+            if matches!(r2, DumpResult::Ok(_)) && d2.fault_fired {
+                fails.push(("error-swallowed".into(), format!("destination error at call {k} but dump() returned Ok")));
+            }
+            // what reached the destination must be a consistent truncated minidump
+            let n = d2.log.len();
+            if d2.log.iter().any(|o| matches!(o, DestOp::Write { .. })) {
+                let (data, written) = replay_prefix(&pre, &d2.log, n);
+                crash_points += 1;
+                let s = start as usize;
+                if data.len() > s {
+                    if let Some((kk, m)) = prefix_invariant(&data[s..], &written[s..]) {
+                        if !fails.iter().any(|f| f.0 == format!("after-io-error/{kk}")) {
+                            fails.push((format!("after-io-error/{kk}"), format!("I/O error injected at destination call {k}: {m}")));
+                        }
+                    }
+                }
+            }
+        }
+    }
+    Res { case, fails, crash_points, windows, fault_runs, ok }
+}
+
+pub fn run(ctx: &Ctx, rep: &mut Report) {
+    let shape = crate::checks::c01::shape_n3();
+    let mut tuples: Vec<(Vec<usize>, bool)> = Vec::new();
+    if ctx.tier.is_thorough() {
+        mdv_core::lat::product(&DIMS, |t| tuples.push((t.to_vec(), false)));
+        let mut seen = 0;
+        mdv_core::lat::lat(&DIMS, 1, |t| {
+            let _ = seen;
+            seen += 1;
+            tuples.push((t.to_vec(), true));
+        });
+    } else {
+        mdv_core::lat::lat(&DIMS, 2, |t| tuples.push((t.to_vec(), false)));
+        // injected I/O errors at every call: the plain dump and the all-options dump
+        tuples.push((vec![0; 7], true));
+        tuples.push((vec![1, 1, 1, 1, 2, 1, 1], true));
+        tuples.push((vec![3, 0, 0, 2, 1, 0, 2], true));
+    }
+    let results = par_map(&tuples, |_, (t, f)| run_tuple(&shape, t, *f));
+    let (mut cps, mut wins, mut frs, mut oks) = (0u64, 0u64, 0u64, 0u64);
+    for r in results {
+        rep.states += 1;
+        cps += r.crash_points;
+        wins += r.windows;
+        frs += r.fault_runs;
+        if r.ok {
+            oks += 1;
+            rep.nontrivial += 1;
+        }
+        if rep.samples.len() < 3 {
+            rep.sample(r.case.clone());
+        }
+        for (k, m) in r.fails {
+            rep.violation(&format!("dump/{k}"), &m, r.case.clone());
+        }
+    }
+    rep.transitions += cps;
+    rep.evaluations += cps;
+    rep.traces += oks + frs;
+    rep.set("whole_dumps", json!({"recorded_dumps": tuples.len(), "succeeded": oks, "crash_points_checked": cps, "directory_entry_writes_seen": wins, "dumps_with_injected_io_error": frs}));
+    if oks == 0 {
+        rep.machinery("no recorded dump succeeded".into());
+    }
+}
+
+pub fn replay(case: &Value, rep: &mut Report) {
+    let Some(shape) = case.get("shape").and_then(Shape::from_json) else {
+        rep.machinery("bad replay".into());
+        return;
+    };
+    let t: Vec<usize> = case.get("options").and_then(|o| o.as_array()).map(|a| a.iter().map(|x| x.as_u64().unwrap_or(0) as usize).collect()).unwrap_or_default();
+    let r = run_tuple(&shape, &t, case.get("with_faults").and_then(|v| v.as_bool()).unwrap_or(false));
+    rep.evaluations += r.crash_points;
+    for (k, m) in r.fails {
+        rep.violation(&format!("dump/{k}"), &m, case.clone());
+    }
 }
